@@ -55,6 +55,11 @@ def generate(rng: random.Random, tier: str, seed: int) -> dict:
         # a node that mutates, in place, a list it received from the context: what one run does to it must not reach the next
         base = dict(base, nodes=base["nodes"] + [{"processor": "SvAppendInPlace"}], context=dict(base["context"], acc=[]))
         in_place = True
+    elif base.get("truth") and base["truth"][-1]["out"] == "float" and rng.random() < 0.12:
+        # a node configured with a `model:` descriptor whose object keeps state between calls: every run - in a launch or
+        # alone - must get an object of its own
+        base = dict(base, nodes=base["nodes"] + [{"processor": "SvUseModel", "parameters": {"model": "model:SvOnlineMean:bias=1.5"}}])
+        in_place = False
     else:
         in_place = False
     num_keys = [k for k, v in base["context"].items() if isinstance(v, float)]
@@ -271,6 +276,8 @@ def execute(sc: dict, seed: int) -> dict:
         # runs BEFORE this process creates its world so that both use the same sandbox directory (file URIs enter the ids)
         other = _other_process(sc, seed, sc["hashseed"])
         stats["probe.other_process_other_hashseed"] = 1
+    if any(nd.get("processor") == "SvUseModel" for nd in sc["base"]["nodes"]):
+        stats["probe.stateful_model_descriptor"] = 1
     if "__ik__" in json.dumps(sc["run_space"]):
         stats["probe.int_keyed_mapping_value"] = 1
     sc = dict(sc, run_space=gen.decode_int_keys(sc["run_space"]))      # after the fresh interpreter got the JSON form
